@@ -34,7 +34,7 @@ const prop = "C14"
 // ---- domain A: real engine ------------------------------------------------------------------------
 
 type Act struct {
-	Kind string `json:"kind"` // create | delete | restore | list | get | put | range | reconcile
+	Kind string `json:"kind"` // create | delete | restore | restore-interrupted | restart | list | get | put | range | reconcile | cleanup
 	Name string `json:"name"`
 	K    []byte `json:"k,omitempty"`
 	V    []byte `json:"v,omitempty"`
@@ -74,6 +74,9 @@ func genActs(t *rapid.T, odd bool) Case {
 		if rapid.Bool().Draw(t, "scn-delete-other") {
 			c.Acts = append(c.Acts, Act{Kind: "delete", Name: y})
 		}
+		if rapid.Bool().Draw(t, "scn-cleanup") {
+			c.Acts = append(c.Acts, Act{Kind: "reconcile", Name: x}, Act{Kind: "cleanup", Name: x})
+		}
 		c.Acts = append(c.Acts, Act{Kind: rapid.SampledFrom([]string{"restart", "restart", "reconcile"}).Draw(t, "scn-then"), Name: x})
 	}
 	for i := 0; i < n; i++ {
@@ -102,8 +105,10 @@ func genActs(t *rapid.T, odd bool) Case {
 			a.Kind = "range"
 		case k == 17:
 			a.Kind = "restart" // engine restart (same disks): running shards are gone until the next reconciliation
-		default:
+		case k == 18:
 			a.Kind = "reconcile"
+		default:
+			a.Kind = "cleanup" // the delayed removal of the data of stopped shards falls due (grace period over) and a cleanup round runs
 		}
 		c.Acts = append(c.Acts, a)
 	}
@@ -225,6 +230,29 @@ func runEngineInner(c Case, o *vt.Obs, oddSeen *int) *vt.Failure {
 		return nil
 	}
 	interrupted, restarted := false, false
+	cleanups, cleanupsSinceRestart := 0, 0
+	// checkAll: every catalogued table holds exactly what the model says
+	checkAll := func(step int, sig, when string) *vt.Failure {
+		names := make([]string, 0, len(cat))
+		for n := range cat {
+			names = append(names, n)
+		}
+		sort.Strings(names)
+		for _, n := range names {
+			got, err := replfx.ReadAll(e, n, true)
+			if err != nil {
+				if strings.Contains(err.Error(), "deadline") || strings.Contains(err.Error(), "timeout") || strings.Contains(err.Error(), "busy") {
+					vt.Inconclusive(fmt.Sprintf("C14 reading table %q %s: %v", n, when, err))
+					return nil
+				}
+				return vt.Failf(prop+"/table-unreadable", step, "table %q %s: %v", n, when, err)
+			}
+			if err := same(got, cat[n].content.Pairs); err != nil {
+				return vt.Failf(prop+sig, step, "table %q %s: %v", n, when, err)
+			}
+		}
+		return nil
+	}
 	// checkRunning: the running table shards are exactly the catalogued ones (cluster ids and pending recovery ids)
 	checkRunning := func(step int) *vt.Failure {
 		ts, err := e.GetTables()
@@ -410,6 +438,35 @@ func runEngineInner(c Case, o *vt.Obs, oddSeen *int) *vt.Failure {
 				}
 			}
 			restarted = true
+			if cleanupsSinceRestart > 0 {
+				// what a cleanup round removed from the disks shows once the tables are opened again
+				if f := checkAll(i, "/table-damaged-by-cleanup", "after a cleanup round and an engine restart"); f != nil {
+					return f
+				}
+				cleanupsSinceRestart = 0
+				o.Label("restart-after-cleanup-round")
+			}
+		case "cleanup":
+			// stopped shards leave a cleanup record; once its grace period is over a cleanup round removes the shard's raft data and its
+			// data directory.  It must only ever remove what belongs to shards no catalogued table uses.
+			e.Manager.VerifSetIntervals(0, 0, time.Nanosecond)
+			var cerr error
+			for attempt := 0; attempt < 10; attempt++ {
+				if cerr = e.Manager.VerifCleanup(); cerr == nil {
+					break
+				}
+				time.Sleep(50 * time.Millisecond) // a shard that is still stopping refuses the removal; the production loop tries again later too
+			}
+			if cerr != nil {
+				o.Label("cleanup-round-gave-up")
+			} else {
+				o.Label("cleanup-round-completed")
+			}
+			cleanups++
+			cleanupsSinceRestart++
+			if f := checkAll(i, "/table-damaged-by-cleanup", "after a cleanup round"); f != nil {
+				return f
+			}
 		case "list":
 			ts, err := e.GetTables()
 			if err != nil {
@@ -476,6 +533,27 @@ func runEngineInner(c Case, o *vt.Obs, oddSeen *int) *vt.Failure {
 				return f
 			}
 		}
+	}
+	if cleanupsSinceRestart > 0 && len(cat) > 0 {
+		// the case ends with the tables opened once more from the disks the cleanup rounds worked on
+		if err := fx.Restart(); err != nil {
+			vt.Inconclusive("C14 final engine restart: " + err.Error())
+			return nil
+		}
+		e = fx.E
+		if err := e.Manager.VerifReconcile(); err != nil {
+			return vt.Failf(prop+"/reconcile-error", len(c.Acts), "reconciliation after the final engine restart: %v", err)
+		}
+		for n := range cat {
+			if err := fx.WaitTablePatient(n, 20*time.Second); err != nil {
+				vt.Inconclusive(fmt.Sprintf("C14 table %q did not become ready after the final restart: %v", n, err))
+				return nil
+			}
+		}
+		if f := checkAll(len(c.Acts), "/table-damaged-by-cleanup", "after cleanup rounds and a final engine restart"); f != nil {
+			return f
+		}
+		o.Label("restart-after-cleanup-round")
 	}
 	if recreated {
 		o.Label("delete-then-recreate-of-a-name-that-held-data")
